@@ -189,6 +189,16 @@ def _shapes(v1=False, seed=7):
     out.append(Shape("advance.partial", "advanceBlockchain", adv,
                      post=lambda d: d.adv_policy.update(final="partial", ask_brothers=False),
                      baseline=1))
+    # the device may report total / partial success before the last announced block (as soon
+    # as the chain connects), after a brother list or straight after a header
+    out.append(Shape("advance.early-total", "advanceBlockchain", adv,
+                     post=lambda d: d.adv_policy.update(stop_after=(1, "total"))))
+    out.append(Shape("advance.early-total-nobrothers", "advanceBlockchain", adv,
+                     post=lambda d: d.adv_policy.update(stop_after=(1, "total"),
+                                                        ask_brothers=False)))
+    out.append(Shape("advance.early-partial", "advanceBlockchain", adv,
+                     post=lambda d: d.adv_policy.update(stop_after=(1, "partial"),
+                                                        ask_brothers=False), baseline=1))
     out.append(Shape("reset", "resetAdvanceBlockchain",
                      {"command": "resetAdvanceBlockchain", "version": 5}))
     out.append(Shape("state", "blockchainState", {"command": "blockchainState", "version": 5}))
@@ -196,6 +206,10 @@ def _shapes(v1=False, seed=7):
     out.append(Shape("updateAncestor", "updateAncestorBlock",
                      {"command": "updateAncestorBlock", "version": 5,
                       "blocks": [b["raw"].hex() for b in ub]}))
+    out.append(Shape("updateAncestor.early-total", "updateAncestorBlock",
+                     {"command": "updateAncestorBlock", "version": 5,
+                      "blocks": [b["raw"].hex() for b in ub]},
+                     post=lambda d: d.adv_policy.update(stop_after=(2, "total"))))
     out.append(Shape("parameters", "blockchainParameters",
                      {"command": "blockchainParameters", "version": 5}))
     out.append(Shape("signerHeartbeat", "signerHeartbeat",
